@@ -16,6 +16,7 @@ import (
 	"fmt"
 	"sort"
 	"strings"
+	"time"
 
 	"verif/common"
 	"verif/space"
@@ -82,11 +83,14 @@ func allSlices(maxLen int) [][]int {
 
 var startSlices = allSlices(4) // 1+3+9+27+81 = 121
 
+// sizeCap: 6 is the smallest heap in which Remove(i) must sift the displaced last element UP (it
+// comes from the other subtree: positions 3/4 hang under 1, the last position 5 under 2), so the
+// quick tier already needs 6 (a "Remove sifts down only" mutant survives every cap <= 5).
 func sizeCap(r *common.Run) int {
 	if r.Thorough() {
-		return 6
+		return 7
 	}
-	return 5
+	return 6
 }
 
 // ---------------------------------------------------------------- multiset helpers
@@ -176,7 +180,7 @@ func main() {
 	for _, sys := range []space.System{heapSystem(r), sliceSystem(r), genericSystem(r)} {
 		res := space.Search(r, sys)
 		r.Nontrivial(int64(res.States))
-		r.Cov("wall_s_after_"+sys.Name, fmt.Sprintf("%.1f", sinceStart(r)))
+		fmt.Printf("%-8s states=%d transitions=%d depth=%d fix-point=%v cap=%q (t+%.1fs)\n", res.Name, res.States, res.Transitions, res.Depth, res.FixPoint, res.CapHit, time.Since(r.Start).Seconds())
 		results = append(results, res)
 	}
 	space.Summarize(r, results)
@@ -197,5 +201,3 @@ func main() {
 	)
 	r.Finish("states = distinct canonical dumps of comparator + private object graph + handle table (live handles in backing order, stale, foreign); every transition is one real call compared with a multiset/handle-table model that follows the implementation's tie-breaking (the returned element is checked to be minimal and then removed from the model), followed by the battery Len / Index of every handle / backing-set equality / heap order (Slice, container) / Peek / destructive PopAll (sorted permutation); non-trivial = every distinct state")
 }
-
-func sinceStart(r *common.Run) float64 { return timeSince(r.Start) }
